@@ -291,6 +291,18 @@ impl Session {
                 let v = self.xs().verif_dict_dump(from);
                 format!("dict:{}", v.join(" ; "))
             }
+            "cursor" => {
+                let xs = &self.states[self.cur];
+                let inp = xs.get_var_value("input");
+                let off = xs.get_var_value("offset");
+                match (inp, off) {
+                    (Ok(i), Ok(o)) => match i.value() {
+                        Cell::Bitstr(b) => format!("cur:{}:{}:{}:{}", b.start(), b.end(), xs.verif_cell_string(o), bits_string(b)),
+                        other => format!("cur:?:?:{}:{}", xs.verif_cell_string(o), xs.verif_cell_string(other)),
+                    },
+                    _ => String::from("cur:unavailable"),
+                }
+            }
             "errloc" => {
                 let xs = &self.states[self.cur];
                 match xs.last_err_location() {
